@@ -348,3 +348,86 @@ Theorem C17_file_text_loads : forall (T : tables) (tab_el tab_at tab_en : nameta
     Xml.Parser.load true T tab_el tab_at tab_en check_fn float_parse text = Val (Xml.Parser.Ret t st) /\
     Xml.Parser.p_warnings st = [] /\ Xml.Parser.p_version st = v /\ Xml.Parser.p_standalone st = f_standalone fl.
 Proof. exact heap_text_loads. Qed.
+
+(* ================= the whole alphabet op2: loads (first files AND merges), duplicate =================
+   PM T w            : every node whose parent link is a model carries the root element type (with C03's Core: every model root
+                       has the root type) - what duplicate needs to attach the copies below the copy's root.
+   op3_ok w o        : move / copy: the attach side condition op_ok; OpLoad: outside C03's Known_load (Core for the loader:
+                       Known_load_shared = merge partner shared by two elements, Known_load_rejected = rollback of a rejected merge);
+                       True for everything else.  NOTHING is pending any more.
+   The loaded tree's edges are okpairs by agent-xmlproofs' `linked` (Xml/LoadRecords.v); a merge keeps TypedU by the table fact
+   PairOK (parents of a merged pair have rel_ok datatypes all along the walk, imported sub-elements transfer). *)
+From AV Require Tree.CompatPM Tree.CompatHist7 Tree.CompatHist9 Tree.CompatHist9b Tree.CompatHist10 Tree.CompatHist11 Tree.CompatHistReal2.
+From AV Require Tree.Copy Tree.Load Tree.InvLoad.
+
+(* [U] AutosarModel::duplicate keeps Bounded /\ TypedU /\ PM, whatever it returns *)
+Theorem C17_duplicate_keeps_typed : forall (T : tables) (tab_el tab_en : nametab) (check_fn : N -> list N -> res bool)
+    (LATEST : N) (root_attrs : list (N * cdata)) (m : N) (w : world) (r : out N) (w' : world),
+  Inv.Core w -> Tree.Copy.m_duplicate T tab_el tab_en check_fn LATEST root_attrs m w = Val (r, w') ->
+  Tree.CompatHist7.J3 T w -> Tree.CompatHist7.J3 T w'.
+Proof. exact Tree.CompatHist7.duplicate_j3. Qed.
+
+(* [U] merge_file_data keeps Bounded /\ TypedU (and is a frame step for PM) when the two roots have the same type, given PairOK *)
+Theorem C17_merge_keeps_typed : forall (T : tables) (LATEST name_definition_ref : N), PairOK T ->
+  Tree.CompatHist9.merge_ok T LATEST name_definition_ref.
+Proof. exact Tree.CompatHist10.merge_ok_of_pairok. Qed.
+
+(* [U] AutosarModel::load_buffer (first file or merge) keeps Bounded /\ TypedU /\ PM, whatever it returns *)
+Theorem C17_load_keeps_typed : forall (T : tables) (tab_el tab_at tab_en : nametab) (check_fn : N -> list N -> res bool)
+    (float_parse : list N -> option N) (LATEST name_definition_ref : N)
+    (m : N) (buffer filename : list N) (strict : bool) (w : world) (r : out (N * list Xml.Parser.perror)) (w' : world),
+  Tree.CompatHist9.first_file w m \/ Tree.CompatHist9.merge_ok T LATEST name_definition_ref ->
+  Inv.Core w -> Tree.CompatHist7.J3 T w ->
+  Tree.Load.m_load_buffer T tab_el tab_at tab_en check_fn float_parse LATEST name_definition_ref m buffer filename strict w = Val (r, w') ->
+  Tree.CompatHist7.J3 T w'.
+Proof. exact Tree.CompatHist9b.load_buffer_j3. Qed.
+
+(* [U] Core /\ TypedU /\ PM is kept by EVERY op2 step (loads outside Known_load, moves / copies under op_ok), given PairOK *)
+Theorem C17_typed_step2 : forall (T : tables) (tab_el tab_at tab_en : nametab) (check_fn : N -> list N -> res bool)
+    (float_parse : list N -> option N) (float_fmt : N -> list N)
+    (LATEST name_index name_definition_ref attr_schema_location : N) (root_attrs : list (N * cdata)), PairOK T ->
+  forall (o : Script2.op2) (w : world) (r : out Script2.value2) (w' : world),
+  Tree.CompatHist11.op3_ok T tab_el tab_at tab_en check_fn float_parse float_fmt LATEST name_index name_definition_ref
+    attr_schema_location root_attrs w o ->
+  Tree.CompatHist11.J T w ->
+  Script2.run_op2 T tab_el tab_at tab_en check_fn float_parse float_fmt LATEST name_index name_definition_ref
+    attr_schema_location root_attrs o w = Val (r, w') ->
+  Tree.CompatHist11.J T w'.
+Proof. exact Tree.CompatHist11.typed_step3. Qed.
+
+(* [U] ... hence after every op2 history from the empty world *)
+Theorem C17_typed_histories2 : forall (T : tables) (tab_el tab_at tab_en : nametab) (check_fn : N -> list N -> res bool)
+    (float_parse : list N -> option N) (float_fmt : N -> list N)
+    (LATEST name_index name_definition_ref attr_schema_location : N) (root_attrs : list (N * cdata)), PairOK T ->
+  forall (l : list Script2.op2) (w' : world),
+  Tree.CompatHist11.ok_ops3 T tab_el tab_at tab_en check_fn float_parse float_fmt LATEST name_index name_definition_ref
+    attr_schema_location root_attrs l Inv.empty_world ->
+  run_ops2 T tab_el tab_at tab_en check_fn float_parse float_fmt LATEST name_index name_definition_ref attr_schema_location
+    root_attrs l Inv.empty_world = Val w' ->
+  Tree.CompatHist11.J T w'.
+Proof. exact Tree.CompatHist11.typed_histories3. Qed.
+
+(* [U over histories, F over the tables] exactness after EVERY op2 history (loads, merges, duplicate included): pending set empty;
+   side conditions: op_ok for move / copy (library-confirmed necessary), Known_load for loads (C03's finding classes) *)
+Theorem C17_exact_histories2_real : forall (tab_el tab_at tab_en : nametab) (check_fn : N -> list N -> res bool)
+    (float_parse : list N -> option N) (float_fmt : N -> list N)
+    (LATEST name_index name_definition_ref attr_schema_location : N) (root_attrs : list (N * cdata))
+    (l : list Script2.op2) (w : world),
+  run_ops2 RT tab_el tab_at tab_en check_fn float_parse float_fmt LATEST name_index name_definition_ref attr_schema_location root_attrs l Inv.empty_world = Val w ->
+  Tree.CompatHist11.ok_ops3 RT tab_el tab_at tab_en check_fn float_parse float_fmt LATEST name_index name_definition_ref
+    attr_schema_location root_attrs l Inv.empty_world ->
+  forall (f v : N) (r : cres), f_check RT w f v = Val r -> (fst r = [] <-> ValidIn RT w f v).
+Proof. exact Tree.CompatHistReal2.exact_histories3_real. Qed.
+
+(* the same for one more step from any world satisfying the invariant *)
+Theorem C17_exact_step2_real : forall (tab_el tab_at tab_en : nametab) (check_fn : N -> list N -> res bool)
+    (float_parse : list N -> option N) (float_fmt : N -> list N)
+    (LATEST name_index name_definition_ref attr_schema_location : N) (root_attrs : list (N * cdata))
+    (o : Script2.op2) (w : world) (r0 : out Script2.value2) (w' : world),
+  Tree.CompatHist11.op3_ok RT tab_el tab_at tab_en check_fn float_parse float_fmt LATEST name_index name_definition_ref
+    attr_schema_location root_attrs w o ->
+  Tree.CompatHist11.J RT w ->
+  Script2.run_op2 RT tab_el tab_at tab_en check_fn float_parse float_fmt LATEST name_index name_definition_ref
+    attr_schema_location root_attrs o w = Val (r0, w') ->
+  forall (f v : N) (r : cres), f_check RT w' f v = Val r -> (fst r = [] <-> ValidIn RT w' f v).
+Proof. exact Tree.CompatHistReal2.exact_step3_real. Qed.
